@@ -33,6 +33,8 @@ type Engine struct {
 	mayAcq   map[*ssa.Function]map[string]bool
 	ifaceImpl map[string][]*ssa.Function
 	loadSecs float64
+	catalogue []catEntry
+	cataloguePatterns []string
 }
 
 var excludedFiles = map[string]bool{
@@ -97,6 +99,9 @@ func LoadEngine(repo string, contractsPath string) (*Engine, error) {
 		}
 	}
 	sort.Slice(e.roots, func(i, j int) bool { return e.keyOf[e.roots[i]] < e.keyOf[e.roots[j]] })
+	if err := e.loadCatalogue(); err != nil {
+		return nil, err
+	}
 	return e, nil
 }
 
